@@ -107,7 +107,10 @@ def run_case(ctx, case, rng):
         if not p.start() or not p.auth():
             ctx.inconclusive("handshake failed")
             return
+        cm.diverge_ids(p, rng)
         c, s = p.session(window_size=SMALL_WINDOW if (small and role == "s") else None)
+        if c is not None and c.chanid != c.remote_chanid:
+            ctx.count("channels_with_local_id_ne_remote_id")
         if s is None:
             ctx.inconclusive("no server channel")
             return
